@@ -234,7 +234,7 @@ func (b *BasicService) StopAsync() {
 		return
 	}
 
-	terminated, _ := b.switchState(New, Terminated, func() {
+	terminated, oldState := b.switchState(New, Terminated, func() {
 		// Service wasn't started yet, and it won't be now.
 		// Notify waiters and listeners.
 		close(b.runningWaitersCh)
@@ -242,9 +242,11 @@ func (b *BasicService) StopAsync() {
 		b.notifyListeners(func(l Listener) { l.Terminated(New) }, true)
 	})
 
-	if !terminated {
+	if !terminated && (oldState == Starting || oldState == Running) {
 		// Service is Starting or Running. Just cancel the context (it must exist,
-		// as it is created when switching from New to Starting state)
+		// as it is created when switching from New to Starting state).
+		// In any other state (e.g. a concurrent StopAsync has just moved the service from
+		// New to Terminated, so there is no context at all) there is nothing left to do.
 		b.serviceCancel()
 	}
 }
